@@ -30,4 +30,10 @@ def collect(h):
     cl = _order(h, rel, h.func_body(rel, r"^func \(e \*elections\[K, V\]\) cleanup\(", "cleanup"), "cleanup")
     items.append(("elect_release_cancel_first", "bool", "true" if rl else "false", rel))
     items.append(("elect_cleanup_cancel_first", "bool", "true" if cl else "false", rel))
+    # does the renewal goroutine cancel its own context whenever it returns?
+    mb = h.func_body(rel, r"^func \(e \*elections\[K, V\]\) maintainLeadership\(", "maintainLeadership")
+    if not re.search(r"defer\s+li\.wg\.Done\(\)", mb):
+        raise h.Missing(f"{rel}: cannot locate defer li.wg.Done() in maintainLeadership")
+    coe = re.search(r"defer\s+li\.cancel\(\)", mb) is not None
+    items.append(("elect_cancel_on_exit", "bool", "true" if coe else "false", rel))
     return items
